@@ -18,7 +18,7 @@ import (
 func init() {
 	Registry["C19"] = &Check{
 		Scenarios: c19Scenarios,
-		Rule: "S in {1,2} streams (stream numbers rotating over {0,1,5}, {16,0,65535}, {21,15,0}, {1,17,16} from one history to the next): per stream every sequence of <=2 messages over sizes {20 (header only), 40, 1100 bytes} from a list of eight; each stream's bytes cut into <=3 chunks at every choice of <=2 cut points from {inside the first header, header/body border, inside the body, message border, inside the second header, spanning point}; ALL merges (interleavings) of the per-stream chunk sequences; then EOF. Bursts: between the two chunks of one stream's 40-byte message (cut at 10, 20, 30) a burst of another stream {30, 64, 66, 70, 140 x 1000 bytes, 100 x 1100, 3 x 30000, 192 x 1024} arrives, one message per chunk or re-cut into 8000-byte chunks, with or without a short message of a third stream in its middle (stream buffers of 30 KB to 192 KiB). More than sixteen streams: 15, 16, 17 or 20 streams deliver a whole message each behind the stalled first message of stream 0; behind its stalled second message one of them delivers again and a never-seen stream delivers for the first time (either order, four size assignments). S = 5: the first stream's message (40 or 1100 bytes) in two chunks around whole messages of four other streams with sizes from {40,48,56,80} (all 256 assignments x 24 arrival orders). S = 3: single messages of 20, 40 and 48 bytes per stream with <=1 cut, all merges (thorough: also the general family with <=1 cut). The chunks are fed through the in-memory SCTP backend (partial delivery: a read returns at most the buffer size of the head chunk) to a real diam.Conn created with diam.NewConn over diam.NewSCTPConnBackend, i.e. consumed by the library's own reader loop; the handler records (message, MessageStream()) and answers. One deterministic schedule per history (the quantifier is over chunk histories). Last clause: additionally the deferred-answer grid of C16 (all 16 stream pairs x 0-2 temporarily failing write attempts) and two application goroutines answering requests of streams {3,5} / {0,7} concurrently, every schedule up to preemption bound 2.",
+		Rule: "S in {1,2} streams (stream numbers rotating over {0,1,5}, {16,0,65535}, {21,15,0}, {1,17,16} from one history to the next): per stream every sequence of <=2 messages over sizes {20 (header only), 40, 1100 bytes} from a list of eight; each stream's bytes cut into <=3 chunks at every choice of <=2 cut points from {inside the first header, header/body border, inside the body, message border, inside the second header, spanning point}; ALL merges (interleavings) of the per-stream chunk sequences; then EOF. Bursts: between the two chunks of one stream's 40-byte message (cut at 10, 20, 30) a burst of another stream {30, 64, 66, 70, 140 x 1000 bytes, 100 x 1100, 3 x 30000, 192 x 1024} arrives, one message per chunk or re-cut into 8000-byte chunks, with or without a short message of a third stream in its middle (stream buffers of 30 KB to 192 KiB). More than sixteen streams: 15, 16, 17 or 20 streams deliver a whole message each behind the stalled first message of stream 0; behind its stalled second message one of them delivers again and a never-seen stream delivers for the first time (either order, four size assignments). Empty reads: after the first k bytes (k = 1..20, 30) of a stream's message a read returns 0 bytes and no error (once or twice), then a whole message of another stream arrives, then the rest. S = 5: the first stream's message (40 or 1100 bytes) in two chunks around whole messages of four other streams with sizes from {40,48,56,80} (all 256 assignments x 24 arrival orders). S = 3: single messages of 20, 40 and 48 bytes per stream with <=1 cut, all merges (thorough: also the general family with <=1 cut). The chunks are fed through the in-memory SCTP backend (partial delivery: a read returns at most the buffer size of the head chunk) to a real diam.Conn created with diam.NewConn over diam.NewSCTPConnBackend, i.e. consumed by the library's own reader loop; the handler records (message, MessageStream()) and answers. One deterministic schedule per history (the quantifier is over chunk histories). Last clause: additionally the deferred-answer grid of C16 (all 16 stream pairs x 0-2 temporarily failing write attempts) and two application goroutines answering requests of streams {3,5} / {0,7} concurrently, every schedule up to preemption bound 2.",
 		Assume: []string{"the in-memory backend models one-to-one-socket recvmsg partial delivery (hook diam/sctp_verif.go, build tag verif)", "single default schedule per history"},
 		QuickBudget: 150, ThoroughBudget: 2400,
 	}
@@ -146,7 +146,11 @@ func c19Run(cfgs []streamCfg, order []int) string {
 		be = vnet.NewSCTP("M")
 		pos := make([]int, len(cfgs))
 		for _, si := range order {
-			be.Deliver(c19Streams[si], cfgs[si].chunks[pos[si]])
+			if len(cfgs[si].chunks[pos[si]]) == 0 {
+				be.DeliverEmpty(c19Streams[si])
+			} else {
+				be.Deliver(c19Streams[si], cfgs[si].chunks[pos[si]])
+			}
 			pos[si]++
 		}
 		be.PeerEOF()
@@ -296,6 +300,10 @@ func c19Scenarios(tier string) []*Scenario {
 	// more streams than the 16 the library sizes its tables for: 15..20 parked streams, then a
 	// second round in which a parked stream and a never-seen stream deliver behind a stalled message
 	out = append(out, &Scenario{Name: "streams/more-than-sixteen", Seq: c19Many})
+	// empty reads: the association answers a read with no data and no error while a message is
+	// incomplete (inside the header, at its end, inside the body), and the next data that arrives
+	// belongs to another stream
+	out = append(out, &Scenario{Name: "streams/empty-read-inside-a-message", Seq: c19EmptyRead})
 	// replies written later, while another stream's request is being handled, with and without
 	// temporary write errors that are retried (shared with C16)
 	out = append(out, &Scenario{Name: "streams/deferred-answer", Seq: c16Deferred})
@@ -518,5 +526,51 @@ func c19Many(r *SeqResult) {
 	}
 	if r.Sample == "" {
 		r.Sample = "15..20 streams parked behind a stalled message, then a parked stream and a never-seen stream deliver behind the next stalled message"
+	}
+}
+
+// c19EmptyRead: stream index 0 delivers the first k bytes of its message (k = 1..19 inside the
+// header, 20, 30 inside the body), then a read comes back empty - 0 bytes, no error, as a
+// non-blocking or interrupted receive does - then a whole message of another stream arrives, then
+// the rest of the first one. With and without a second empty read before the rest.
+func c19EmptyRead(r *SeqResult) {
+	saved := c19Streams
+	defer func() { c19Streams = saved; r.Capped += c19Capped; c19Capped = 0 }()
+	for _, streams := range [][]uint16{{1, 2}, {0, 7}, {9, 0}} {
+		c19Streams = streams
+		for k := 1; k <= 30; k++ {
+			if k > 20 && k != 30 {
+				continue
+			}
+			for _, second := range []bool{false, true} {
+				for _, szB := range []int{20, 48} {
+					a := c19Msg(0, 0, 40)
+					chunks := [][]byte{a[:k], {}}
+					if second {
+						chunks = append(chunks, []byte{})
+					}
+					chunks = append(chunks, a[k:])
+					cfgs := []streamCfg{{sizes: []int{40}, chunks: chunks, desc: fmt.Sprintf("sizes[40] cuts[%d], then an empty read", k)},
+						{sizes: []int{szB}, chunks: [][]byte{c19Msg(1, 0, szB)}, desc: fmt.Sprintf("sizes[%d] cuts[]", szB)}}
+					order := []int{0, 0, 1}
+					if second {
+						order = append(order, 0)
+					}
+					order = append(order, 0)
+					r.Cases++
+					r.Distinct++
+					if r.Violation != "" {
+						continue
+					}
+					if v := c19Run(cfgs, order); v != "" {
+						r.Violation = fmt.Sprintf("%s | stream %d: %s; stream %d: %s; chunk arrival order (stream index) %v", v, streams[0], cfgs[0].desc, streams[1], cfgs[1].desc, order)
+						r.Case = map[string]interface{}{"streams": streams, "cut": k, "second-empty": second, "order": order}
+					}
+				}
+			}
+		}
+	}
+	if r.Sample == "" {
+		r.Sample = "k bytes of one stream's message, an empty read, a whole message of another stream, the rest"
 	}
 }
